@@ -12,7 +12,9 @@ from ..runner import Divergence, Driver, Env, Outcome, Violation, diff_streams
 THEOREMS = ["C14_reload_drops_all_timers", "C14_refuted_retry", "C14_refuted_waiter_timeout", "C14_refuted_retry_restart",
             "C14_refuted_retry_resume", "C14_refuted_waiter_timeout_restart", "C14_retry_lost_forever",
             "C14_waiter_timeout_lost_forever", "C14_partial", "C14_next_wakeup_is_earliest", "C14_timer_pops_exactly_the_due",
-            "C14_every_timer_fires_when_due", "C14_timer_heap_source_shape"]
+            "C14_every_timer_fires_when_due", "C14_timer_heap_source_shape",
+            "C14_retry_tick_carries_its_first_attempt", "C14_step_result_ignores_reducer_clock",
+            "C14_granted_retry_regranted_at_any_replay_clock"]
 LEAN_TARGETS = ["WfProps.C14"]
 EXPLANATION = (
     "Model WfModel/Timers.lean: one handler of the in-process server stack = persisted tick log + handler row (status, "
@@ -49,7 +51,20 @@ EXPLANATION = (
     "C14_next_wakeup_is_earliest / C14_timer_pops_exactly_the_due / C14_every_timer_fires_when_due (a loop that sleeps until Runner.nextWakeup and "
     "pops delivers every pending timer exactly when due, whatever the arming order); the model keeps the heap as a bag, which "
     "C14_timer_heap_source_shape justifies (scheduled_wakeups is changed through heapq.heappush / heappop only, re-read from control_loop.py), and the "
-    "op `wake` compares the real runner's next_wakeup_timeout with Runner.nextWakeup at every quiescent point."
+    "op `wake` compares the real runner's next_wakeup_timeout with Runner.nextWakeup at every quiescent point. "
+    "Retries already granted (stream 'budget'): a step under a retry policy bounded by ELAPSED time (stop_after_delay(D) / stop_before_delay(D), wait_fixed(w); "
+    "one case in six the same history under stop_after_attempt) fails 2-3 times well inside D, then the run leaves memory for 0 / D / 2D / 3D / 40 / 50 virtual "
+    "seconds (plan action [\"crash\", downtime]; the model ops restart t / resume t' carry both clocks): process stop with retry n executing (a sibling branch "
+    "keeps the handler non-idle, so the next boot resumes it) or with its delay running, or idle release while retry n is suspended in wait_for_event and the "
+    "awaited event reloads the run. Monitors: granted_retry_revoked_by_reload_after_<cut>_<pending|in_flight|suspended_in_wait|carried_out> -- the journal replay "
+    "of a reload is asked about the very failures the live loop was asked about (paired in journal order by step / input / failure number); a failure for which "
+    "the live policy granted a retry must not be answered 'give up' in the replay (what was handed to the policy live and in the replay is reported, with what the "
+    "reloaded run then did); retry_in_flight_not_resumed_after_restart -- end to end from step executions and the handler row: a retried execution that was running "
+    "at the process stop of a running / non-idle handler is executed again after the next boot. Both hold of the unchanged code (its replay re-stamps the first "
+    "attempt of a NON-retried execution with the replay clock -- open finding of C11 -- which can only turn a refusal into a grant, never the reverse). Lean: "
+    "C14_retry_tick_carries_its_first_attempt (a retry tick with its first_attempt_at starts the same execution at every reducer clock), "
+    "C14_step_result_ignores_reducer_clock (for EVERY policy the commands of a step-result tick -- retry granted, delay, exit -- are the same at every reducer clock), "
+    "C14_granted_retry_regranted_at_any_replay_clock (their composition), with a stop_after_delay(7) history reloaded 25 s after the first attempt as the worked example."
 )
 ASSUMPTIONS = suite.ENGINE_ASSUMPTIONS + [
     "process stop is modelled at quiescent points of the event loop (tick buffer drained); a stop between a tick's on_tick and its commands is property C13's subject",
